@@ -651,6 +651,18 @@ func judgeCase(rec *caseRecord, sum *jSummary) {
 				add("C08", fmt.Sprintf("%s: document declares openapi %q, configured %q", name, r.Spec.Version, wantV))
 			}
 		}
+		// the securitySchemes section is the configuration's, scheme by scheme (oauth2: flow by flow, each with its own scopes)
+		for _, sn := range pc.Cfg.Schemes {
+			got, ok := r.Spec.Schemes[sn]
+			if !ok {
+				continue // (a missing scheme is C04's business)
+			}
+			var diffs []string
+			diffJSON("securitySchemes."+sn, canon(anyJSON(schemeDocument(sn))), canon(anyJSON(got)), &diffs, 3)
+			for _, dl := range diffs {
+				add("C08", fmt.Sprintf("%s (%s): the document's security scheme differs from the configuration at %s", name, r.Spec.Version, dl))
+			}
+		}
 		if len(r.Spec.Servers) != 1 || r.Spec.Servers[0] != "https://api.example.com/v1" {
 			add("C08", fmt.Sprintf("%s: servers = %v, configured baseUrl https://api.example.com/v1", name, r.Spec.Servers))
 		}
